@@ -88,6 +88,7 @@ class AllocatorAwarePointer
     constexpr AllocatorAwarePointer(AllocatorAwarePointer&& other) noexcept
         : impl_(other.release(), other.size(), other.get_allocator())
     {
+        other.size() = {};
     }
 
 #if __cpp_constexpr_dynamic_alloc
@@ -133,6 +134,7 @@ class AllocatorAwarePointer
             deallocate();
             get() = other.release();
             size() = other.size();
+            other.size() = {};
         }
         return *this;
     }
@@ -158,6 +160,7 @@ class AllocatorAwarePointer
         deallocate();
         get() = other.release();
         size() = other.size();
+        other.size() = {};
     }
 
     constexpr void propagate_on_container_copy_assignment(const AllocatorAwarePointer& other) noexcept
